@@ -35,6 +35,9 @@ NAMES = ["a", "b", "c", "d"]
 def _mk(name, variant, span=(0.0, 4.0)):
     """A tier whose content identifies (name-independent) its variant."""
     p = P()
+    if variant % 2 == 1:
+        # odd variants are point tiers: a slot takes a tier of either kind
+        return p.PointTier(name, [p.Point((span[0] + span[1]) / 2, f"v{variant}")], span[0], span[1])
     return p.IntervalTier(name, [p.Interval(span[0], (span[0] + span[1]) / 2, f"v{variant}")], span[0], span[1])
 
 
